@@ -196,19 +196,28 @@ func TestChildShipped(t *testing.T) {
 			stage("init-endpoint", name, name, fmt.Errorf("no endpoint factory registered for %s", name))
 			continue
 		}
-		l, err := net.Listen("tcp", "127.0.0.1:0")
-		if err != nil {
-			stage("init-endpoint", name, name, err)
-			continue
+		// The port is picked by the kernel, released and handed to the endpoint;
+		// another process may grab it in between, so "address already in use"
+		// is retried with a fresh port (a fresh endpoint instance each time).
+		var addr string
+		for attempt := 0; ; attempt++ {
+			var l net.Listener
+			l, err = net.Listen("tcp", "127.0.0.1:0")
+			if err != nil {
+				break
+			}
+			addr = l.Addr().String()
+			l.Close()
+			var inst module.Module
+			inst, err = factory(name, []string{"tcp://" + addr})
+			if err != nil {
+				break
+			}
+			err = inst.Init(config.NewMap(globals, e.Cfg))
+			if err == nil || attempt >= 4 || !strings.Contains(err.Error(), "address already in use") {
+				break
+			}
 		}
-		addr := l.Addr().String()
-		l.Close()
-		inst, err := factory(name, []string{"tcp://" + addr})
-		if err != nil {
-			stage("init-endpoint", name, name, err)
-			continue
-		}
-		err = inst.Init(config.NewMap(globals, e.Cfg))
 		if stage("init-endpoint", name, name, err) && firstSMTP == "" {
 			firstSMTP = addr
 		}
